@@ -149,3 +149,41 @@ Theorem C07_sr_rebase_refuted :
     end.
 Proof. exact sr_rebase_refuted. Qed.
 Print Assumptions C07_sr_rebase_refuted.
+
+(* ------------------------------------------------------------------------- *)
+(* viewers on real transports (Model/C07Transport.v over C01's wire model) *)
+From V Require C01Wire.
+From V Require Import C07Transport C07TransportProofs.
+
+(* a packet the transport cannot carry affects only itself: the consumer after it is the consumer before it *)
+Theorem C07_carry_failure_local : forall kind v p, carry kind p = None -> consume kind v p = v.
+Proof. exact carry_failure_local. Qed.
+Print Assumptions C07_carry_failure_local.
+
+(* for every packet sequence: the viewer stays attached and has received exactly the packets its transport can carry *)
+Theorem C07_viewer_survives : forall kind ps v, v_open v = true ->
+  v_open (vrun kind v ps) = true /\ v_got (vrun kind v ps) = v_got v ++ owed kind ps.
+Proof. exact viewer_survives. Qed.
+Print Assumptions C07_viewer_survives.
+
+Theorem C07_later_good_delivered : forall kind bad good,
+  forallb (carriable kind) good = true ->
+  v_open (vrun kind v0 (bad ++ good)) = true /\
+  v_got (vrun kind v0 (bad ++ good)) = owed kind bad ++ good.
+Proof. exact later_good_delivered. Qed.
+Print Assumptions C07_later_good_delivered.
+
+(* refuted for close-on-error: one 65508-byte packet and a UDP viewer gets nothing more *)
+Theorem C07_close_on_error_refuted :
+  exists kind bad good,
+    carriable kind good = true /\
+    v_got (vrun kind v0 [bad; good]) = [good] /\
+    v_got (vrun_close kind v0 [bad; good]) = [] /\ v_open (vrun_close kind v0 [bad; good]) = false.
+Proof. exact close_on_error_refuted. Qed.
+Print Assumptions C07_close_on_error_refuted.
+
+(* the oracle applied to real viewers accepts the model's viewer *)
+Theorem C07_transport_model_passes : forall kind chmap pkts,
+  tr_client_ok kind chmap pkts (C01Wire.client_view chmap (v_got (vrun kind v0 pkts))) (negb (v_open (vrun kind v0 pkts))) = true.
+Proof. exact tr_model_passes. Qed.
+Print Assumptions C07_transport_model_passes.
